@@ -558,3 +558,35 @@ Proof.
     unfold Bits.usub in En. destruct (bits <? lz) eqn:Ec; [discriminate|]. injection En as <-.
     rewrite chk64_ok by lia. reflexivity.
 Qed.
+
+(* ====================== special.rs: checked_next_power_of_two, next_power_of_two ====================== *)
+Lemma uONE_length bits : length (Bits.uONE bits) = nlimbsN bits.
+Proof.
+  unfold Bits.uONE. destruct (bits =? 0); [apply uMAX_length|].
+  pose proof (PfGenAdd.uZERO_length bits) as H. destruct (uZERO bits) as [|z t]; [exact H | exact H].
+Qed.
+
+Theorem g_next_pow2_eq bits a :
+  0 <= bits -> bits + 7 < B -> 64 * nlimbs bits < B -> length a = nlimbsN bits -> Forall inW a ->
+  g_checked_next_power_of_two bits (nlimbs bits) a = Bits.checked_next_power_of_two bits a /\
+  g_next_power_of_two bits (nlimbs bits) a = Bits.next_power_of_two bits a.
+Proof.
+  intros Hb HbB HB Hla Hw. pose proof (nlimbs_nonneg bits Hb) as HL.
+  assert (E1 : g_checked_next_power_of_two bits (nlimbs bits) a = Bits.checked_next_power_of_two bits a).
+  { unfold g_checked_next_power_of_two, Bits.checked_next_power_of_two.
+    rewrite PfGenBits.g_is_power_of_two_eq by assumption. cbn [obind].
+    destruct (Bits.is_power_of_two a); [reflexivity|].
+    destruct (g_lz_family_eq bits a Hb HbB HB Hla Hw) as (_ & _ & Ebl & _). rewrite Ebl.
+    destruct (Bits.bit_len bits a) as [e| | | |] eqn:Ee; cbn [obind]; try reflexivity.
+    destruct (bits <=? e) eqn:Ec; [reflexivity|].
+    assert (He : 0 <= e).
+    { unfold Bits.bit_len in Ee. destruct (Bits.leading_zeros bits a) as [lz| | | |]; cbn [obind] in Ee; try discriminate.
+      unfold Bits.usub in Ee. destruct (bits <? lz) eqn:E2; [discriminate|]. injection Ee as <-. lia. }
+    rewrite PfModelsAgree.agree_udiv_uone.
+    destruct (g_shift_wrappers_eq bits (Bits.uONE bits) e Hb ltac:(lia) (uONE_length bits) He) as (_ & _ & Ewl & _ & _).
+    rewrite Ewl. cbn [obind].
+    rewrite (PfModelsAgree.agree_bits_shl_local bits (Bits.uONE bits) e Hb (uONE_length bits)). reflexivity. }
+  split; [exact E1|].
+  unfold g_next_power_of_two, Bits.next_power_of_two. rewrite E1.
+  destruct (Bits.checked_next_power_of_two bits a) as [[v|]| | | |]; reflexivity.
+Qed.
